@@ -3,6 +3,7 @@ X = 'src/xref.rs'
 UNIT = dict(
     properties=['C02', 'C04', 'C07'],
     prelude=['arch64.rs', 'containers.rs'],
+    spec=['xsspec.rs', 'spec.rs'],
     types=[
         dict(file=X, kind='enum', name='XrefType'),
         dict(file=X, kind='enum', name='XrefEntry'),
@@ -16,8 +17,12 @@ UNIT = dict(
             dict(rule='R10', pat=r'value = ([^;\n]*)u32::from\(byte\);', to=r'let byte = buffer[__k1 - 1];\n        value = \1u32_from(byte);', count=1, note='index loop: element k; u32::from(u8) shim'),
             dict(rule='R5', lit='let mut value = 0;', to='let mut value: u32 = 0;', count=1, note='integer type made explicit (inferred from the return type)'),
         ])),
-        dict(file='src/parser_aux.rs', name='decode_xref_stream', props=['C02', 'C04'], variant='robustness', rules=dict(no_sink=True, raw_sig=True, loops={1: dict(kind='keep'), 2: dict(kind='keep')}, pre_subst=[
-            dict(rule='R7', lit='fn decode_xref_stream(mut stream: Stream) -> Result<(Xref, Dictionary)> {', to='fn decode_xref_stream(mut stream: Stream) -> (r: core::result::Result<(Xref, Dictionary), ErrTag>)\n{', count=1, note='result named; crate Error as an opaque tag'),
+        dict(file='src/parser_aux.rs', name='decode_xref_stream', props=['C02', 'C04'], rules=dict(no_sink=True, raw_sig=True, loops={1: dict(kind='keep'), 2: dict(kind='keep')}, pre_subst=[
+            dict(rule='R2', lit='for i in 0..section_indice.len() / 2 {', to='for i in __it1: 0..section_indice.len() / 2 {', count=1, note='the ghost iterator of the for loop is named (Verus syntax) so that invariants can speak of its position when the range is empty'),
+            dict(rule='R2', lit='for j in 0..count {', to='for j in __it2: 0..count {', count=1, note='same'),
+            dict(rule='R5', pat=r'let generation = (if [^;]*?\n\s*\}) as u16;', to=r'let __g32: u32 = \1;\n                        let generation = #[verifier::truncate] (__g32 as u16);', count=1, note='`as u16` on a u32 keeps the low-order 16 bits: the u32 is named and the cast marked as intended truncation for Verus'),
+            dict(rule='R5', pat=r'let index = (read_big_endian_integer\([^;]*?\)\?) as u16;', to=r'let __i32: u32 = \1;\n                        let index = #[verifier::truncate] (__i32 as u16);', count=1, note='same'),
+            dict(rule='R7', lit='fn decode_xref_stream(mut stream: Stream) -> Result<(Xref, Dictionary)> {', to='fn decode_xref_stream(stream0: Stream) -> (r: core::result::Result<(Xref, Dictionary), ErrTag>)\n{\n    let mut stream = stream0;', count=1, note='result named; crate Error as an opaque tag; `mut` by-value parameter written as an immutable parameter moved into a mutable local (what it means), so that the contract can name the argument'),
             dict(rule='R10', pat=r'let size = dict\s*\.get\(b"Size"\)\s*\.and_then\(Object::as_i64\)\s*\.map_err\(\|_\| ParseError::InvalidXref\)\?;', to='let size = dict_get_i64(&dict, b"Size")?;', count=1, note='get(k).and_then(as_i64).map_err(..)? template: shim dict_get_i64'),
             dict(rule='R10', pat=r'let section_indice = dict\s*\.get\(b"Index"\)\s*\.and_then\(parse_integer_array\)\s*\.unwrap_or_else\(\|_\| vec!\[0, size\]\);', to='let section_indice = match dict_get_int_array(&dict, b"Index") { Ok(v) => v, Err(_) => vec2(0, size) };', count=1, note='get(k).and_then(parse_integer_array).unwrap_or_else(|_| d) template: shim dict_get_int_array (parse_integer_array is the loop over Object::as_i64)'),
             dict(rule='R10', pat=r'let field_widths = dict\s*\.get\(b"W"\)\s*\.and_then\(parse_integer_array\)\s*\.map_err\(\|_\| ParseError::InvalidXref\)\?;', to='let field_widths = dict_get_int_array(&dict, b"W")?;', count=1, note='same template with map_err(..)?'),
